@@ -53,7 +53,7 @@ def one(data):
     STATS[label] += 1
     if label not in SAMPLES or (label == "ok-equivalent" and len(s) > len(SAMPLES[label]) and len(s) < 60):
         SAMPLES[label] = s
-    if STATS["executions"] % 2000 == 0:
+    if STATS["executions"] % 100 == 0:
         flush()
     if viol is not None:
         h = hashlib.sha1(s.encode("utf-8", "replace")).hexdigest()[:12]
